@@ -118,10 +118,15 @@ func RectFromCenter(lat, lon, meters float64) (
 
 	} else {
 
-		latSin, latCos := math.Sincos(lat)
-		latT := math.Asin(latSin / rCos)
-		latTSin, latTCos := math.Sincos(latT)
-		lonΔ := math.Acos((rCos - latTSin*latSin) / (latTCos * latCos))
+		// Δlon = asin(sin(r) / cos(lat)), the second form given by the reference
+		// above. The arc cosine form loses up to ~1e-8 rad (centimetres on the
+		// ground) for metre-scale radii, where its argument is within a few
+		// ulps of 1. The ratio reaches 1 only when the disc reaches a pole,
+		// which the adjustments below turn into the full longitude range.
+		lonΔ := math.Pi
+		if s := math.Sin(r) / math.Cos(lat); s < 1 {
+			lonΔ = math.Asin(s)
+		}
 
 		minLon = lon - lonΔ
 		maxLon = lon + lonΔ
